@@ -70,7 +70,7 @@ def run(ctx):
                'stored predictions (model_fluxes) are themselves checked against truth by C04')
     ctx.require_events('plot:call', 'curve-point:checked', 'curve-point:truth-checked')
     ctx.require_events('plot:called-with-positional-arguments')
-    ctx.require_regimes('cube:apertures-not-stored-in-increasing-order', 'av:negative-among-best-fits', 'mode:interp', 'mode:largest', 'mode:largest+smallest', 'mode:all', 'input:object', 'input:file', 'multi-aperture', 'single-aperture',
+    ctx.require_regimes('source:with-an-upper-limit-band', 'cube:apertures-not-stored-in-increasing-order', 'av:negative-among-best-fits', 'mode:interp', 'mode:largest', 'mode:largest+smallest', 'mode:all', 'input:object', 'input:file', 'multi-aperture', 'single-aperture',
                         'cube:asc', 'cube:desc', 'selected>=2', 'beyond-table', 'filters:unsorted', 'two-sources-share-a-model', 'filters-share-an-aperture', 'filters>=12-distinct-apertures', 'cube:unit-not-mJy', 'filters:other-unit', 'law:not-in-micron')
     n_pk = 5 if ctx.quick else 100
     for ip in range(n_pk):
@@ -178,10 +178,17 @@ def run(ctx):
         # a second source whose best fits share models with the first: one plot() call then draws the same model twice
         flux2 = 10.0 ** (pred + 0.15 + rng.normal(0, 0.03, nb))
         err2 = flux2 * 0.1
-        info_obj2 = fitter.fit(gen.build_source('star2', valid, flux2, err2, 5.0, 6.0))
+        valid2 = valid.copy()
+        if nb >= 3 and ip % 2 == 0:
+            # one band of the second source is an upper limit well above the models (satisfied: no penalty): it is a fitted wavelength
+            # like the others - its predicted flux is stored with the fit and its filter has its own aperture
+            jl_ = int(rng.integers(nb))
+            valid2[jl_], flux2[jl_], err2[jl_] = 3, flux2[jl_] * 30.0, 0.9
+            ctx.regime('source:with-an-upper-limit-band')
+        info_obj2 = fitter.fit(gen.build_source('star2', valid2, flux2, err2, 5.0, 6.0))
         data = os.path.join(d, 'data.txt')
         open(data, 'w').write(gen.source_line('star', valid, flux, err, 3.0, 4.0) + '\n' +
-                              gen.source_line('star2', valid, flux2, err2, 5.0, 6.0) + '\n')
+                              gen.source_line('star2', valid2, flux2, err2, 5.0, 6.0) + '\n')
         if set(str(x) for x in info_obj.model_name[:2]) & set(str(x) for x in info_obj2.model_name[:2]):
             ctx.regime('two-sources-share-a-model')
         out = os.path.join(d, 'fit.out')
